@@ -22,6 +22,8 @@ def run(chk, tier):
         from props import ctor
         ctor.builder_constructors(chk, F, 'R02.0', cfg)
         B.conversion_table(chk, F, 'R02.7', cfg)
+        # R02.10 a producible return value handed to the builder is filed as this clause's response (never dropped on the way)
+        B.returner_error_latched(chk, F, 'R02.10', cfg)
         efn, epaths, erows = E.eval_dyn_table(chk, F, 'R02.8.table', cfg)
         E.counting_discipline(chk, F, 'R02.8', cfg, efn, erows)
         position_is_rmw(chk, F, 'R02.3', cfg)
